@@ -72,7 +72,7 @@ theorem leftK_checkKids (S : Schema) : ∀ (frs : List Frame) (fills : List (Lis
       · exact h4
       · show sigOf S _ = sigOf S _
         rw [sigOf_append, sigOf_append, leftK_sig S frs fills botL h5.length]
-    simp only [leftK, Frame.node, checkKids_append, checkKids_cons, checkNode_elem, Schema.checkKids, h1, hv, h2, ih,
+    simp only [leftK, Frame.node, checkKids_append, checkNode_elem, Schema.checkKids, h1, hv, h2, ih,
       h3, Bool.and_self]
 
 def RightOK (S : Schema) : List Frame → List (List Node) → List Node → Prop
@@ -111,7 +111,7 @@ def botTy : TypeId → List Frame → TypeId
   | _, fr :: frs => botTy fr.ty frs
 
 theorem botTy_append (ty : TypeId) : ∀ (a b : List Frame), botTy ty (a ++ b) = botTy (botTy ty a) b
-  | [], b => rfl
+  | [], _ => rfl
   | fr :: a, b => botTy_append fr.ty a b
 
 /-- per level above the close level: `from`'s ancestor holds the children in front of `from`, the joined child and the
